@@ -196,5 +196,65 @@ def search_render():
     return None
 
 
+# ---- whole-project rendering: the converter is shared by all entities, every comment is a document of its own
+STATEFUL = [   # (doc lines with per-document markdown state, tracer words the rendering must hold - exactly these, in order)
+    (lambda t: [f"{t}p1 with a footnote[^1] {t}p2", "", f"[^1]: {t}f1 {t}f2"], lambda t: [f"{t}p1", f"{t}p2", f"{t}f1", f"{t}f2"]),
+    (lambda t: [f"{t}p1 [{t}l1][ref] {t}p2", "", f"[ref]: http://example.org/{t}u1"], lambda t: [f"{t}p1", f"{t}l1", f"{t}p2"]),
+    (lambda t: [f"{t}p1 [{t}l1][ref] {t}p2"], lambda t: [f"{t}p1", f"{t}l1", f"{t}p2"]),                 # an undefined reference stays text: no URL from a neighbour
+    (lambda t: [f"--- {t}p1 {t}p2", f"{t}p3"], lambda t: [f"{t}p1", f"{t}p2", f"{t}p3"]),                 # a first line that merely starts like a YAML delimiter
+    (lambda t: [f"...{t}p1 {t}p2", f"{t}p3"], lambda t: [f"{t}p1", f"{t}p2", f"{t}p3"]),
+    (lambda t: [f"{t}p1 footnote again[^1]", "", f"[^1]: {t}f1"], lambda t: [f"{t}p1", f"{t}f1"]),
+]
+TRACER = re.compile(r"^e\d+[plfu]\d$")
+
+
+def project_render_source(dm="!"):
+    L = ["module tracers", f"  !{dm} e0p1 module words e0p2", "  implicit none"]
+    exp = {"tracers": ["e0p1", "e0p2"]}
+    for i, (mk, want) in enumerate(STATEFUL, start=1):
+        L.append(f"  integer :: var{i}")
+        for dl in mk(f"e{i}"):
+            L.append(f"    !{dm} {dl}" if dl and not dl.startswith(("---", "...")) else f"    !{dm}{dl}")
+        exp[f"var{i}"] = want(f"e{i}")
+    # a documentation line of the container that follows a statement which takes no documentation
+    L += ["  private :: var1", f"  !{dm} e9p1 late container words e9p2"]
+    exp["tracers"] += ["e9p1", "e9p2"]
+    L += ["contains", "  subroutine summarised()", f"    !{dm} summary: e8p1 short e8p2", f"    !{dm}", f"    !{dm} e8p3 body e8p4", "  end subroutine summarised", "end module tracers", ""]
+    exp["summarised"] = ["e8p3", "e8p4"]
+    return "\n".join(L), exp
+
+
+def search_project_render():
+    mdm = loader.import_repo("ford._markdown")
+    for dm in ("!", "!>"):
+        src, exp = project_render_source(dm)
+        try:
+            proj = realrun.build_project({"src/tracers.f90": src}, display=["public", "private"], docmark=dm, predocmark="|", predocmark_alt="#", docmark_alt="*")
+            md = mdm.MetaMarkdown(aliases={}, project=proj)
+            proj.markdown(md)
+        except Exception as e:
+            return {"confirmed": True, "input": {"source": src, "docmark": dm}, "actual": f"{type(e).__name__}: {e}", "expected": "renders", "how": "Project + Project.markdown"}
+        m = proj.modules[0]
+        ents = {"tracers": m, "summarised": m.subroutines[0]}
+        ents.update({v.name: v for v in m.variables})
+        for name, want in exp.items():
+            text = html.unescape(re.sub(r"<[^>]+>", " ", ents[name].doc))
+            got = [w for w in re.findall(r"[A-Za-z]\w*", text) if TRACER.match(w)]
+            if got != want:
+                return {"confirmed": True, "input": {"source": src, "docmark": dm}, "actual": {name: got}, "expected": {name: want},
+                        "how": "tracer words in the rendered documentation (entity.doc) after Project.markdown with one shared converter, as FORD runs it"}
+            hrefs = re.findall(r'href="(http://example\.org/[^"]*)"', ents[name].doc)
+            own = [h for h in hrefs if name.replace("var", "e") + "u" in h]
+            if hrefs != own:
+                return {"confirmed": True, "input": {"source": src, "docmark": dm}, "actual": {name: hrefs}, "expected": {name: own},
+                        "how": "link targets in the rendered documentation: a reference-style link resolves only against definitions of the same comment"}
+        summ = html.unescape(re.sub(r"<[^>]+>", " ", str(ents["summarised"].meta.summary)))
+        gots = [w for w in re.findall(r"[A-Za-z]\w*", summ) if TRACER.match(w)]
+        if gots != ["e8p1", "e8p2"]:
+            return {"confirmed": True, "input": {"source": src, "docmark": dm}, "actual": {"summary": summ.strip()[:200]}, "expected": {"summary words": ["e8p1", "e8p2"]},
+                    "how": "the `summary:` metadata of an entity as rendered (meta.summary)"}
+    return None
+
+
 def count_cases():
     return sum(1 for _ in attach_cases()), sum(1 for _ in render_cases())
